@@ -3,7 +3,7 @@
 Require Extraction.
 Require Import ExtrOcamlBasic.
 From Coq Require Import ZArith QArith List Bool.
-From Pandora Require Import Lib.Value Model.Dataset Model.Multiscale.
+From Pandora Require Import Lib.Value Model.Dataset Model.Machine Model.Multiscale Gen.MsConst Spec.Language Spec.Multiscale.
 Import ListNotations.
 Open Scope Z_scope.
 
@@ -28,8 +28,10 @@ Definition dec_step (v : value) : step_cfg :=
 
 Definition dec_dv (v : value) : arr (option Q) * arr Z :=
   (dec_arr as_oq None (vnth 0 v), dec_arr as_z 0 (vnth 1 v)).
+Definition dec_map (v : value) : Z -> Z := let l := as_zs v in fun o => getz (-1) l o.
 Definition dec_level (v : value) : level :=
-  mkLevel (as_z (vnth 0 v)) (dec_dv (vnth 1 v)) (dec_opt dec_dv (vnth 2 v)).
+  mkLevel (as_z (vnth 0 v)) (dec_dv (vnth 1 v)) (dec_opt dec_dv (vnth 2 v))
+          (dec_map (vnth 3 v), dec_map (vnth 4 v)).
 
 Definition enc_pair (p : option Q * option Q) : value := VL [of_oq (fst p); of_oq (snd p)].
 Definition enc_grids (g : grids) : value :=
@@ -38,14 +40,26 @@ Definition enc_grids (g : grids) : value :=
   | GMap a => VL [VZ 1; enc_arr enc_pair a]
   end.
 
+Definition kind_of_code (z : Z) : option kind :=
+  match z with
+  | 0 => Some MC | 1 => Some Agg | 2 => Some Seg | 3 => Some Opt | 4 => Some Dsp
+  | 5 => Some Flt | 6 => Some Ref | 7 => Some Val | 8 => Some Msc | 9 => Some Cvc
+  | _ => None
+  end.
+Definition dec_pstep (v : value) : step := mkStep (as_z (vnth 0 v)) (kind_of_code (as_z (vnth 1 v))).
+
 (* fid 1: steps -> (num_scales scale_factor)
    fid 2: (n sf k) -> size of level k
    fid 3: (invalid_bits marge sf dmin dmax H W n with_right levels) -> grids of every execution
    fid 4: (sf mask) -> decimated mask
-   fid 5: (sf n) -> zoom index map of an axis of length n *)
+   fid 5: (sf n) -> zoom index map of an axis of length n
+   fid 6: (ws marge sf D V ulo uhi h w Gmin Gmax) -> the pixels of the h x w finer level whose observed
+          interval is not prescribed by Spec.Multiscale.finer_spec (the extracted spec checker)
+   fid 7: (n H W sf rdm pre ms post), steps as (id kindcode) -> the executions of Spec.spec_trace with the image
+          size during each of them (Model image_sizes), and the size of the returned map (output_size) *)
 Definition dispatch (fid : Z) (v : value) : value :=
   match fid with
-  | 1 => let '(n, sf) := read_multiscale_params (map dec_step (as_l v)) in VL [VZ n; VZ sf]
+  | 1 => let '(n, sf) := read_multiscale_params ms_default_num_scales ms_default_scale_factor (map dec_step (as_l v)) in VL [VZ n; VZ sf]
   | 2 => VZ (level_size (as_nat (vnth 2 v)) (as_z (vnth 0 v)) (as_z (vnth 1 v)))
   | 3 => VL (map (fun p => VL [enc_grids (fst p); enc_opt enc_grids (snd p)])
                  (run_grids (as_z (vnth 0 v)) (as_z (vnth 1 v)) (as_z (vnth 2 v)) (as_z (vnth 3 v))
@@ -54,6 +68,23 @@ Definition dispatch (fid : Z) (v : value) : value :=
   | 4 => enc_arr VZ (decimate (as_z (vnth 0 v)) (dec_arr as_z 0 (vnth 1 v)))
   | 5 => let sf := as_z (vnth 0 v) in let n := as_z (vnth 1 v) in
          of_zs (map (zoom_idx sf n) (zrange 0 (sf * n)))
+  | 6 => let Dm := dec_arr as_oq None (vnth 3 v) in
+         let Vm := dec_arr as_z 0 (vnth 4 v) in
+         let gmin := dec_arr as_oq None (vnth 9 v) in
+         let gmax := dec_arr as_oq None (vnth 10 v) in
+         VL (map (fun p => VL [VZ (fst p); VZ (snd p)])
+                 (finer_spec_bad (as_z (vnth 0 v)) (as_z (vnth 1 v)) (as_z (vnth 2 v)) (nr Dm) (nc Dm) (px Dm) (px Vm)
+                                 (as_q (vnth 5 v)) (as_q (vnth 6 v)) (as_z (vnth 7 v)) (as_z (vnth 8 v))
+                                 (fun r c => (px gmin r c, px gmax r c))))
+  | 7 => let n := as_nat (vnth 0 v) in
+         let tr := spec_trace (map dec_pstep (as_l (vnth 5 v))) (dec_pstep (vnth 6 v))
+                              (map dec_pstep (as_l (vnth 7 v))) n (as_b (vnth 4 v)) in
+         let H := as_z (vnth 1 v) in let W := as_z (vnth 2 v) in let sf := as_z (vnth 3 v) in
+         let o := output_size n H W sf tr in
+         VL [VL (map (fun ep => match fst ep with
+                                | Ev id k sc r => VL [VZ id; VZ (kind_code k); VZ sc; of_b r; VZ (fst (snd ep)); VZ (snd (snd ep))]
+                                end) (image_sizes n H W sf tr));
+             VL [VZ (fst o); VZ (snd o)]]
   | _ => VL [VZ (-1)]
   end.
 
